@@ -38,6 +38,13 @@ def main():
     tier = os.environ.get('VERIF_TIER', 'quick')
     if '--tier' in a: tier = a[a.index('--tier') + 1]
     replay = a[a.index('--replay') + 1] if '--replay' in a else None
+    if replay:
+        # a replay re-creates the run that wrote the file: same seed, same tier (the generators are deterministic functions of both)
+        try:
+            _pl = json.load(open(replay))
+            if 'seed' in _pl: os.environ['VERIF_SEED'] = str(_pl['seed'])
+            if _pl.get('tier') in ('quick', 'thorough') and '--tier' not in a: tier = _pl['tier']
+        except Exception: pass
     t0 = time.time()
     limit = int(os.environ.get('VERIF_TIMEOUT', '1500' if tier == 'quick' else '7200'))
     def on_alarm(sig, frm):
